@@ -39,6 +39,8 @@ class MapBase:
 
 
 class PDict:
+    # code under contract may type-test what it is handed: the proxy answers isinstance(x, dict) like the value it stands for
+    __class__ = property(lambda self: dict)
     def __init__(self, pairs=(), base=None):
         self.log = []            # ("set", k, v) | ("del", k, None)
         self.base = base
@@ -216,6 +218,7 @@ def mkdict(pairs):
 
 
 class PList:
+    __class__ = property(lambda self: list)
     """list with an arbitrary initial content of symbolic length n (base(i) for 0 <= i < n) and appended items"""
 
     def __init__(self, n=0, base=None, items=()):
@@ -312,6 +315,7 @@ class SymItems:
 
 
 class CompDict:
+    __class__ = property(lambda self: dict)
     """result of  {K(k, v): V(k, v) for k, v in d.items() if C(k, v)}  over a dict d with arbitrary content.
     It is not looked into by the code under contract; the contract interrogates `entry(k)`: for an arbitrary source
     key k, (present in d, condition, new key, new value) -- i.e. the comprehension's own code run on a symbolic entry."""
